@@ -87,6 +87,18 @@ func sizedValue(typ zed.Type, sz, salt int) (zed.Value, error) {
 	return zed.NewValue(typ, body), nil
 }
 
+// checkFuserSafe is checkFuser with a panic of the Fuser (called on this goroutine) reported as a crash.
+func (e *env) checkFuserSafe(fc *fuserCase, seed int64) (err error) {
+	defer func() {
+		if p := recover(); p != nil {
+			e.c.Violate("crash:fuser", fmt.Sprintf("fuse.Fuser panics on %s: %v", fc.key(), p),
+				witness{Kind: "fuser", Input: fc.Input, Mem: fc.Mem, Seed: seed})
+			err = nil
+		}
+	}()
+	return e.checkFuser(fc, seed)
+}
+
 // checkFuser replays one Fuser case on fuse.NewFuser: Write every value
 // (the hook tells during which Write the spill file is created), then Read
 // everything back, and compares with the spec (spill point, output types) and
